@@ -8,13 +8,23 @@ package connectors
 // runner's event loop) calls one. The producer goroutine never reads itself: a read-ahead
 // would move the cursor past records that have not been emitted yet, and a checkpoint taken
 // in between would report positions the barrier does not cover.
+// One read at a time, none after the end of input: the producer offers the next read function
+// (send on C) only after it received the completion signal of the previous one (readComplete),
+// and every read function sends that signal when it returns - otherwise the producer would
+// decide "not at end of input yet" before the read that reaches it has run.
 //@ func ReadSourceChannel.Start$0
-//@   property C16
+//@   property C16 C04
 //@   nosafety
 //@   atcall ReadEvents: false
+//@   order send:C after recv:readComplete
+
+//@ func ReadSourceChannel.Start$2
+//@   property C16 C04
+//@   nosafety
+//@   ensures called("send:readComplete")
 
 //@ func ReadSourceChannel.Start$1
-//@   property C16
+//@   property C16 C04
 //@   nosafety
 //@   atcall ReadEvents: same(recv_, c.sourceReader)
 //@   ensures called(ReadEvents)
